@@ -76,10 +76,16 @@ func (tdaw *TrackableDataTrie) SaveKeyValue(key []byte, value []byte) error {
 	}
 
 	if lenValue != 0 {
-		identifier = append(key, tdaw.identifier...)
+		identifier = append(identifier, key...)
+		identifier = append(identifier, tdaw.identifier...)
 	}
 
-	tdaw.dirtyData[string(key)] = append(value, identifier...)
+	// the stored value must not share memory with the caller's key or value buffers
+	valueWithIdentifier := make([]byte, 0, len(value)+len(identifier))
+	valueWithIdentifier = append(valueWithIdentifier, value...)
+	valueWithIdentifier = append(valueWithIdentifier, identifier...)
+
+	tdaw.dirtyData[string(key)] = valueWithIdentifier
 	return nil
 }
 
